@@ -235,6 +235,8 @@ pub struct Gen<'a> {
     str_prefix: String,
     /// (table, kind, key, value) pairs believed present in multimaps, for removals that hit
     mm_seen: Vec<(u8, Kind, KeyVal, KeyVal)>,
+    /// (table, kind, key) believed present in tables
+    map_seen: Vec<(u8, Kind, KeyVal)>,
     /// largest value length the chosen geometry supports (a value must fit well inside a region)
     max_val: u32,
 }
@@ -243,7 +245,7 @@ const NAMES: usize = 5;
 
 impl<'a> Gen<'a> {
     pub fn new(rng: &'a mut Rng, prof: Profile) -> Self {
-        Gen { rng, prof, page: 512, next_val: 1, names: vec![None; NAMES], key_space: 32, str_prefix: String::new(), mm_seen: vec![], max_val: 48 * 1024 }
+        Gen { rng, prof, page: 512, next_val: 1, names: vec![None; NAMES], key_space: 32, str_prefix: String::new(), mm_seen: vec![], map_seen: vec![], max_val: 48 * 1024 }
     }
 
     pub fn cfg(&mut self) -> Cfg {
@@ -430,7 +432,23 @@ impl<'a> Gen<'a> {
         let t = self.tref(Some(false));
         let kt = t.kind.key_type();
         let k = self.key(kt);
-        match self.rng.below(100) {
+        let choice = self.rng.below(100);
+        // lookups, replacements and removals: half of them aim at a key inserted earlier (a fresh
+        // random key is usually absent, and only the "absent" paths would run)
+        let k = if (44..=74).contains(&choice) && self.rng.chance(1, 2) {
+            let known: Vec<usize> = self.map_seen.iter().enumerate().filter(|(_, e)| e.0 == t.name && e.1 == t.kind).map(|(i, _)| i).collect();
+            if known.is_empty() { k } else { self.map_seen[known[self.rng.usize(known.len())]].2.clone() }
+        } else {
+            k
+        };
+        if choice <= 43 {
+            if self.map_seen.len() >= 128 {
+                let at = self.rng.usize(self.map_seen.len());
+                self.map_seen.swap_remove(at);
+            }
+            self.map_seen.push((t.name, t.kind, k.clone()));
+        }
+        match choice {
             0..=39 => {
                 let l = self.val_len();
                 Op::Insert { t, k, v: self.val(l) }
@@ -500,6 +518,12 @@ impl<'a> Gen<'a> {
         };
         match self.rng.below(100) {
             0..=54 => {
+                // one insert in ten repeats a pair inserted before ("no duplicate pairs")
+                let known: Vec<usize> = self.mm_seen.iter().enumerate().filter(|(_, e)| e.0 == t.name && e.1 == t.kind).map(|(i, _)| i).collect();
+                if !known.is_empty() && self.rng.chance(1, 10) {
+                    let e = self.mm_seen[known[self.rng.usize(known.len())]].clone();
+                    return Op::MmInsert { t, k: e.2, v: e.3 };
+                }
                 let v = self.mm_val(t.kind.val_type());
                 if self.mm_seen.len() >= 96 {
                     let at = self.rng.usize(self.mm_seen.len());
@@ -594,6 +618,23 @@ impl<'a> Gen<'a> {
                 2 => self.catalog_op(),
                 3 => self.sp_op(),
                 4 => Op::Reader(self.rop()),
+                _ if self.rng.chance(1, 3) => {
+                    // a burst of values under one multimap key: the value set grows past the
+                    // inline limit and into a subtree with branches
+                    let t = self.tref(Some(true));
+                    let k = match t.kind.key_type() {
+                        KT::U => KeyVal::U(self.rng.below(4)),
+                        _ => KeyVal::S(format!("m{}", self.rng.below(4))),
+                    };
+                    for _ in 0..self.rng.range(6, 30) {
+                        let v = self.mm_val(t.kind.val_type());
+                        if self.mm_seen.len() < 96 {
+                            self.mm_seen.push((t.name, t.kind, k.clone(), v.clone()));
+                        }
+                        ops.push(Op::MmInsert { t, k: k.clone(), v });
+                    }
+                    Op::MmGet { t, k, pattern: 0 }
+                }
                 _ => {
                     let t = self.tref(Some(false));
                     let l = if t.kind.val_is_bytes() { self.bulk_len() } else { 8 };
